@@ -350,10 +350,6 @@ impl Stream {
         !self.pending_clear && !self.pending_key.iter().any(|p| *p)
     }
 
-    pub fn reference(&self) -> &[Option<u64>] {
-        &self.reference
-    }
-
     /// Record a push (the caller hands the same operation to the queue).
     pub fn pushed(&mut self, op: QOp, value: u64) {
         self.next_index += 1;
